@@ -56,7 +56,7 @@ def gen_case(rng):
     if cv is not None and cv.kind in ("cat", "cat_date") and rng.random() < 0.75:
         col_ins = su.gen_insertions(rng, cv, rng.randint(1, 2), p_diff=0.6, p_overlap=p_overlap)
     return {"vars": [v.to_json() for v in vars_], "survey": gen.survey_to_json(survey), "weighted": weighted,
-            "row_ins": row_ins, "col_ins": col_ins}
+            "row_ins": row_ins, "col_ins": col_ins, "scale": su.pick_scale(rng, 0.12)}
 
 
 def generate(ctx):
@@ -68,7 +68,8 @@ def generate(ctx):
 
 
 def _wsurvey(case, survey):
-    return survey if case["weighted"] else [(Fraction(1), a) for _, a in survey]
+    ws = survey if case["weighted"] else [(Fraction(1), a) for _, a in survey]
+    return su.scaled_survey(ws, case.get("scale", 1))
 
 
 def _sides(case, vars_):
@@ -184,7 +185,9 @@ def evaluate(case, louts, ctx):
     if z != cubepart.Z_975:
         findings.append({"kind": "spec", "locus": "moe.constant",
                          "detail": "cubepart.Z_975=%r but the property says %r" % (cubepart.Z_975, z)})
-    resp = gen.cube_response(vars_, survey, case["weighted"])
+    resp = su.scale_response(gen.cube_response(vars_, survey, case["weighted"]), case.get("scale", 1))
+    if case.get("scale", 1) > 1:
+        ctx.count("large_sample_cases:%s" % ("weighted" if case["weighted"] else "unweighted"))
     tr = su.transforms_of(case["row_ins"], case["col_ins"])
     cube = Cube(resp, transforms=tr)
     key_parts = []
@@ -319,6 +322,8 @@ def shrink_candidates(case):
             yield dict(case, **{key: ins[:i] + ins[i + 1:]})
     if case["weighted"]:
         yield dict(case, survey=[["1", a] for _, a in case["survey"]])
+    if case.get("scale", 1) > 1:
+        yield dict(case, scale=1)
 
 
 THEOREMS = [
